@@ -1,24 +1,30 @@
 """
 C11 — packing a directory is independent of the host's enumeration order.
 
-Proof: Sqfs/Props/C11.lean over the model Sqfs/Model/FsTree.lean (native → recursive → hard-link filter →
-dir_tree_iterator → scan_directory → fstree_add_generic → fstree_post_process).
+Proof: Sqfs/Props/C11.lean over the model Sqfs/Model/FsTree.lean (native iterator with read_names/compare_names/qsort →
+recursive iterator → hard-link filter → dir_tree_iterator → scan_directory → fstree_add_generic → fstree_post_process →
+fstree_sort_files → order of pack_files).
 
 Tie (every run, real code from the working tree):
-  1. harness level — harness/h_c11.c links the real scan path (ASan+UBSan) with harness/shim_readdir.c wrapped
-     around readdir; generated directory trees (nested, many entries, files/symlinks/fifos/sockets/devices,
-     multiply-linked files within and across directories, non-ASCII names) are scanned under >= 8 readdir orders;
-     the resulting tree + inode numbers + file list is compared with the model run on the logged orders, both for
-     `--pack-dir` and for pack files with `glob` lines (prefix, file prefix, -type/-name/-path, -xdev, -keeptime,
-     -nonrecursive, -nohardlinks, pre-existing entries);
-  2. tool level — un-sanitized gensquashfs under LD_PRELOAD=shim_readdir.so: sha256 of the image must be constant
-     across orders; the image is read back with the real reader (harness/h_c11_dump.c) and its tree, inode
-     numbers and data placement order are compared with the model.
+  0. function level — harness/h_c11_unit.c compiles the real dir_unix.c into itself: compare_names on name pairs that share
+     up to 254 bytes; the real native iterator on directories of 0..4097 (thorough 8193) entries served by the readdir shim in
+     several orders; insert_sorted; fstree_sort_files; fstree_add_generic/fstree_post_process called directly (nesting limit,
+     ERANGE/EINVAL, hard-link sets in several queue orders); a directory chain around SQFS_MAX_DIR_NESTING;
+  1. harness level — harness/h_c11.c links the real scan path (ASan+UBSan) with harness/shim_readdir.c wrapped around readdir;
+     generated directory trees (nested, files/symlinks/fifos/sockets/devices, multiply-linked files within and across
+     directories, non-ASCII names; big directories of 129..600 (2000) entries whose names share long prefixes) are scanned under
+     >= 8 readdir orders; tree + inode numbers + file list are compared with the model run on the logged orders, for `--pack-dir`
+     and for pack files with `glob` lines;
+  2. tool level — gensquashfs (plain under LD_PRELOAD=shim_readdir.so, and an ASan build with the shim linked in), incl. -S sort
+     files and --xattr-file: sha256 of the image must be constant across orders; the image is read back with the real reader
+     (harness/h_c11_dump.c) and its tree, inode numbers and data placement order are compared with the model.
 
-Two models are consulted: `sorted=1` (native iterator sorts each directory: the repaired tree,
-fixes/C11-sorted-readdir.patch) is the main model; `sorted=0` (readdir order passed through: the code as pinned)
-is the witness model of defect D16.  An order dependence that the witness model predicts exactly and that
-involves a multiply-linked file with hard-link detection on is the known finding `D16:hardlink-primary`.
+The main model (`sorted=1`) is the code in /repo.  `sorted=0` (read_names without its qsort call: what a revert of /repo 7ff9210
+would be) is consulted only to name a disagreement: an order dependence it predicts exactly and that involves a multiply-linked
+file with hard-link detection on is reported as `D16:hardlink-primary` (recorded as fixed, hence a violation).
+
+Fail-closed: every helper must answer one line per operation, never `bad-op`; the shim's log must show that it was in control;
+every part has a floor on what it evaluated (CheckFailure otherwise).
 """
 import json, os, shutil, socket, stat, subprocess, atexit, time
 import vlib
@@ -631,7 +637,10 @@ def run_case(ctx, harness, case, orders):
     """returns list of (order, impl_dump, log_orders, model_sorted, model_unsorted, aborted)"""
     text = "\n".join(harness_line(case, o, ctx) for o in orders) + "\n"
     t0 = time.time()
-    r = vlib.sh([str(harness)], input=text, env=ctx.san_env(), timeout=900)
+    try:
+        r = vlib.sh([str(harness)], input=text, env=ctx.san_env(), timeout=900)
+    except subprocess.TimeoutExpired:
+        return None, ("timeout", "real scan path did not finish within 900 s", 0)
     TIMES["harness"] += time.time() - t0
     out = r.stdout.splitlines()
     res = []
@@ -1076,7 +1085,9 @@ def gen_tool_case(ctx, tree, idx, multi, nofile=None):
             cmd += ["-u", "77"]; flags &= ~F_KEEP_UID; defs["uid"] = 77
         if r.random() < 0.15:
             cmd += ["-g", "88"]; flags &= ~F_KEEP_GID; defs["gid"] = 88
-        c = Case("packdir", tree, {"uid": 0, "gid": 0, "mtime": mt, "mode": 0o755}, flags, defs)
+        # mkfs.c main(): -u/-g also replace the default owner (root inode, implicit directories) — asked of the model
+        mu, mg = model(ctx, ["maindefaults 0 0 %d %d %d" % (flags, defs["uid"], defs["gid"])])[0].split()
+        c = Case("packdir", tree, {"uid": int(mu), "gid": int(mg), "mtime": mt, "mode": 0o755}, flags, defs)
         add_sort_and_xattr(ctx, c, cmd, idx)
         return c, cmd
     c = gen_glob_case(ctx, tree, 100000 + idx, multi, tool=True, nofile=nofile)
@@ -1192,8 +1203,13 @@ def build_unit_harness(ctx):
                   libs=[str(ctx.build_lib("san"))] + vlib.CODEC_LIBS + ["-Wl,--wrap=readdir,--wrap=readdir64,--wrap=closedir"])
 
 
-def run_harness(ctx, exe, lines, what):
-    r = vlib.sh([str(exe)], input="\n".join(lines) + "\n", env=ctx.san_env(), timeout=900)
+def run_harness(ctx, exe, lines, what, timeout=600):
+    """a sanitizer abort, a signal and a timeout of the real code are results (reported with the input), not crashes of the check"""
+    try:
+        r = vlib.sh([str(exe)], input="\n".join(lines) + "\n", env=ctx.san_env(), timeout=timeout)
+    except subprocess.TimeoutExpired as e:
+        done = len((e.stdout or b"").splitlines()) if e.stdout else 0
+        return None, {"rc": "timeout after %ds" % timeout, "stderr": "", "answered": done, "of": len(lines), "what": what}
     out = r.stdout.splitlines()
     if r.returncode != 0 or len(out) != len(lines):
         return None, {"rc": r.returncode, "stderr": r.stderr[-3000:], "answered": len(out), "of": len(lines), "what": what}
@@ -1255,13 +1271,14 @@ def unit_part(ctx, unit, harness, counters, hist):
                 raise vlib.CheckFailure("model and real strcmp agree (%s) but differ from the reference order (%s)" % (msign, spec))
 
     # (b) read_names: the real native iterator over real directories, entries served by the shim in different orders
-    sizes = [0, 1, 2, 3, 15, 16, 17, 100, 127, 128, 129, 255, 256, 257, 1023, 1024, 1025, 2000]
+    sizes = [0, 1, 2, 3, 15, 16, 17, 100, 127, 128, 129, 255, 256, 257, 1023, 1024, 1025, 2000, 4097]
     if not ctx.quick():
-        sizes += [511, 512, 513, 2047, 2048, 2049, 4097, 5000]
+        sizes += [511, 512, 513, 2047, 2048, 2049, 4096, 5000, 8193]
     for si, n in enumerate(sizes):
         d = (str(ctx.scratch / ("names%d" % si))).encode()
         os.mkdir(d)
-        names = long_names(r, n, NAME_MAX if si % 3 != 2 else r.choice([12, 40, NAME_MAX]))
+        # (the model sorts by insertion: beyond 2000 entries short names keep that affordable)
+        names = long_names(r, n, 24 if n > 2000 else (NAME_MAX if si % 3 != 2 else r.choice([12, 40, NAME_MAX])))
         for nm in names:
             os.close(os.open(d + b"/" + nm, os.O_WRONLY | os.O_CREAT | os.O_EXCL, 0o644))
         if sorted(os.listdir(d)) != sorted(names):
@@ -1422,6 +1439,17 @@ def direct_part(ctx, harness, counters, hist):
     lines += [op("full", [ent("A", b"l", 0o120777)]), op("full", [ent("A", b"l", 0o120777, extra=b"")]),
               op("full", [ent("A", b"l", 0o120777, extra=b"tgt")]), op("full", [ent("L", b"l", 0o120777)]),
               op("full", [ent("A", b"", 0o40700, uid=7)]), op("full", [ent("A", b"", 0o100600)])]
+    # directed link shapes, each queued in every order: a chain ending in a file, a chain ending nowhere, a self loop, a
+    # two-cycle, and a cycle that does NOT contain the link being resolved (only `max_hops` ends that one)
+    fileF = ent("A", b"f", 0o100644, extra=b"in")
+    for shape in ([(b"a", b"b"), (b"b", b"c"), (b"c", b"f")], [(b"a", b"b"), (b"b", b"nowhere")], [(b"a", b"a")],
+                  [(b"a", b"b"), (b"b", b"a")], [(b"a", b"b"), (b"b", b"c"), (b"c", b"b")],
+                  [(b"a", b"b"), (b"b", b"c"), (b"c", b"d"), (b"d", b"c"), (b"e", b"f")]):
+        ls = [ent("L", p, 0o120777, extra=t) for p, t in shape]
+        perms = [ls, list(reversed(ls))] + ([ls[1:] + ls[:1]] if len(ls) > 2 else [])
+        for pm in perms:
+            lines.append(op("full", [fileF] + pm))
+        dp["directed_shapes"] = dp.get("directed_shapes", 0) + len(perms)
     for si in range(30 if ctx.quick() else 300):
         dirs = [b""] + [r.choice([b"d", b"e", b"d/s", b"zz"]) for _ in range(r.randint(0, 2))]
         files, base = [], []
@@ -1466,7 +1494,7 @@ def direct_part(ctx, harness, counters, hist):
         groups.append((first, dp["orders_per_set"], flat))
         dp["link_sets"] += 1
         dp["flat_sets"] += 1 if flat else 0
-    out, crash = run_harness(ctx, harness, lines, "direct")
+    out, crash = run_harness(ctx, harness, lines, "direct", timeout=300)
     if crash:
         ctx.violation("crash:direct", "fstree_add_generic / fstree_post_process aborted (rc=%s) after %d of %d operations: %s"
                       % (crash["rc"], crash["answered"], crash["of"], crash["stderr"][-300:]),
